@@ -204,6 +204,10 @@ fn alphabet() -> Alphabet {
         b"-0x10",
         b"ABC",
         b"ab",
+        // a control byte followed by a digit: written `\0dd<digit>` in source (source-text leg)
+        b"\x001",
+        b"\n3",
+        b"a\"b'`{\\",
     ] {
         literals.push(string(s));
     }
@@ -297,6 +301,69 @@ fn depth1(a: &Alphabet) -> Vec<String> {
             for t2 in &small {
                 out.push(format!("(ifx {} (num f4000000000000000) (({} {})) (num f4008000000000000))", c, c2, t2));
                 out.push(format!("(ifx {} (num f4000000000000000) (({} {})) (num f4008000000000000))", c2, c, t2));
+            }
+        }
+    }
+    out
+}
+
+/// Directed cases of the source-text leg: every string of a list made for literal DECODING (control /
+/// high bytes followed by digits and hex digits, quotes, backslashes, brackets, UTF-8 scalars, CR/LF) in
+/// every spelling family (salt % 8) under the operators that consume the value, as quoted strings, as
+/// interpolation segments and next to interpolated values; every number of a list in every number spelling
+/// (salt / 8 % 8). Returned with the salt that selects the spelling.
+fn directed_source_cases() -> Vec<(String, usize)> {
+    let strings: Vec<&[u8]> = vec![
+        b"\x001", b"\x0b1", b"\x7f0", b"a\x009", b"\n3", b"\r\n", b"\x00", b"\xff0", b"\xc3\xa91", b"\xe2\x82\xac",
+        b"]]", b"a]=]b", b"\\n", b"\"", b"'", b"`{}", b"", b"1", b" 0x10 ", b"1e2", b"abc", b"\xff\xfe", b"\x1b[0m9",
+        b"\tA\x0cF", b"12\x0034", b"\x7f\x80\x81", b"\xf0\x9f\x98\x80a", b"x\ny", b"  ", b"\x01\x02\x033",
+    ];
+    let numbers: [f64; 16] = [
+        0.0, 1.0, 16.0, 255.0, 1000.0, 65536.0, 9007199254740991.0, 0.5, 0.1, 1e15, 1e100, 5e-324, 1e308, 123456.75, 3.0e-7, 4096.0,
+    ];
+    let mut out = Vec::new();
+    for style in 0..STRING_STYLES {
+        for (i, bytes) in strings.iter().enumerate() {
+            let lit = string(bytes);
+            let salt = style + STRING_STYLES * ((i + style) % NUMBER_STYLES);
+            let seg = crate::model::hex(bytes);
+            for w in [
+                lit.clone(),
+                un("len", &lit),
+                bin("eq", &lit, &string(b"\n3")),
+                bin("eq", &lit, &lit),
+                bin("lt", &lit, &string(b"a")),
+                bin("concat", &lit, &string(b"")),
+                bin("concat", &num(1.0), &lit),
+                bin("add", &lit, &num(0.0)),
+                un("neg", &lit),
+                format!("(interp (s {}))", seg),
+                format!("(interp (s {}) (v (num f3ff0000000000000)))", seg),
+                format!("(interp (v {}) (s {}))", lit, seg),
+                format!("(un len (interp (s {}) (v true) (s {})))", seg, seg),
+                format!("(index (var x74) {})", lit),
+                format!("(table (keyed {} {}))", lit, lit),
+                format!("(ifx (bin eq {} {}) {} () nil)", lit, lit, lit),
+            ] {
+                out.push((w, salt));
+            }
+        }
+    }
+    for nstyle in 0..NUMBER_STYLES {
+        for (i, v) in numbers.iter().enumerate() {
+            let n = num(*v);
+            let salt = (i % STRING_STYLES) + STRING_STYLES * nstyle;
+            for w in [
+                n.clone(),
+                bin("add", &n, &num(0.0)),
+                bin("eq", &n, &n),
+                bin("concat", &n, &string(b"")),
+                un("neg", &n),
+                bin("lt", &n, &num(2.5)),
+                format!("(interp (v {}))", n),
+                bin("idiv", &n, &num(16.0)),
+            ] {
+                out.push((w, salt));
             }
         }
     }
@@ -445,6 +512,10 @@ const SKIP_REASONS: &[&str] = &[
     "e2e:rule-error",
     "e2e:rule-panic:UNEXPECTED",
     "random-tree-over-6000-bytes(regenerated)",
+    "source-leg:not-renderable(negative-or-non-finite-number-leaf)",
+    "source-leg:renderer-vs-reference-reader",
+    "source-leg:parse-error",
+    "source-leg:parser-panic",
 ];
 
 const HOLE: &str = "(var x5f5f484f4c45)"; // __HOLE
@@ -594,6 +665,9 @@ fn judge(real: &Answers, outcome: &Outcome) -> Option<String> {
 
 struct Ctx {
     envs: Vec<(&'static str, String)>,
+    ty_wire: String,
+    empty_fn: String,
+    checked_literals: std::sync::Mutex<std::collections::HashSet<String>>,
 }
 
 fn has_opaque(expr: &str) -> bool {
@@ -671,6 +745,559 @@ fn subexpressions(expr: &str) -> Vec<String> {
     out
 }
 
+
+// ---------------------------------------------------------------------------------------------
+// source-text leg: the case rendered as Luau SOURCE by a renderer of our own, parsed by darklua
+// ---------------------------------------------------------------------------------------------
+
+/// Renders a wire expression as Luau source text. It shares nothing with darklua's generators or
+/// `string_utils`: every string byte / number is spelled by the rules below, chosen by `style`.
+/// Each rendered literal is recorded so that an independent reader (C13's reference decoder in the
+/// Lean driver) can confirm that the text denotes the intended value.
+struct Renderer<'a> {
+    rng: Rng,
+    /// 0..8 = fixed spelling family, 8 = random per byte / literal
+    string_style: usize,
+    number_style: usize,
+    ty_wire: &'a str,
+    empty_fn: &'a str,
+    /// (kind "str" | "seg" | "num", literal text, intended value: hex bytes or f<bits>)
+    literals: Vec<(&'static str, String, String)>,
+}
+
+const NUMBER_STYLES: usize = 8;
+const STRING_STYLES: usize = 8;
+
+fn is_plain(b: u8) -> bool {
+    (0x20..0x7f).contains(&b) && b != b'\\' && b != b'"' && b != b'\'' && b != b'`' && b != b'{'
+}
+
+impl<'a> Renderer<'a> {
+    fn letter_escape(b: u8) -> Option<&'static str> {
+        Some(match b {
+            b'\n' => "\\n",
+            b'\t' => "\\t",
+            b'\r' => "\\r",
+            7 => "\\a",
+            8 => "\\b",
+            12 => "\\f",
+            11 => "\\v",
+            b'\\' => "\\\\",
+            b'"' => "\\\"",
+            b'\'' => "\\'",
+            _ => return None,
+        })
+    }
+
+    /// decimal escape: the shortest spelling that cannot absorb the next character, or 3 digits
+    fn decimal_escape(b: u8, next_is_digit: bool, force3: bool) -> String {
+        if force3 || next_is_digit {
+            format!("\\{:03}", b)
+        } else {
+            format!("\\{}", b)
+        }
+    }
+
+    /// the body of a quoted / backtick string for `bytes`; `quote` is the delimiter
+    fn string_body(&mut self, bytes: &[u8], quote: u8) -> String {
+        let mut out = String::new();
+        let mut i = 0;
+        while i < bytes.len() {
+            let b = bytes[i];
+            let next_digit = bytes.get(i + 1).map(|n| n.is_ascii_digit()).unwrap_or(false);
+            let next_hex = bytes.get(i + 1).map(|n| n.is_ascii_hexdigit()).unwrap_or(false);
+            let style = if self.string_style >= STRING_STYLES { self.rng.below(6) } else { self.string_style % 6 };
+            // a valid UTF-8 scalar starting here?
+            let scalar = std::str::from_utf8(&bytes[i..(i + 4).min(bytes.len())])
+                .ok()
+                .or_else(|| {
+                    (1..4).rev().find_map(|n| std::str::from_utf8(&bytes[i..(i + n).min(bytes.len())]).ok())
+                })
+                .and_then(|t| t.chars().next());
+            let must_escape = !is_plain(b) && !(b == b'"' && quote != b'"') && !(b == b'\'' && quote != b'\'')
+                && !(b == b'`' && quote != b'`') && !(b == b'{' && quote != b'`');
+            match style {
+                // natural: plain bytes raw, the rest as the shortest legal decimal escape
+                0 => {
+                    if !must_escape {
+                        out.push(b as char);
+                    } else if b == quote || b == b'\\' || (b == b'{' && quote == b'`') {
+                        out.push('\\');
+                        out.push(b as char);
+                    } else {
+                        out.push_str(&Self::decimal_escape(b, next_digit, false));
+                    }
+                }
+                // every byte as a three-digit decimal escape (so `\ddd` is often followed by a digit)
+                1 => out.push_str(&Self::decimal_escape(b, next_digit, true)),
+                // every byte as \xHH (often followed by a hex digit)
+                2 => out.push_str(&format!("\\x{:02x}", b)),
+                // letter escapes where they exist, plain otherwise, else \ddd
+                3 => {
+                    if let Some(e) = Self::letter_escape(b) {
+                        out.push_str(e);
+                    } else if !must_escape {
+                        out.push(b as char);
+                    } else if b == b'`' || b == b'{' {
+                        out.push('\\');
+                        out.push(b as char);
+                    } else {
+                        out.push_str(&Self::decimal_escape(b, next_digit, false));
+                    }
+                }
+                // \u{…} for scalars (with leading zeros sometimes), \xHH for the rest
+                4 => {
+                    if let Some(c) = scalar {
+                        let zeros = ["", "0", "000"][self.rng.below(3)];
+                        out.push_str(&format!("\\u{{{}{:x}}}", zeros, c as u32));
+                        i += c.len_utf8();
+                        continue;
+                    }
+                    out.push_str(&format!("\\x{:02X}", b));
+                    let _ = next_hex;
+                }
+                // \z + white space between pieces, line continuation for a newline byte, upper-case hex
+                _ => {
+                    if b == b'\n' {
+                        out.push_str("\\\n");
+                    } else if !must_escape {
+                        out.push(b as char);
+                    } else if b == quote || b == b'\\' || (b == b'{' && quote == b'`') {
+                        out.push('\\');
+                        out.push(b as char);
+                    } else {
+                        out.push_str(&Self::decimal_escape(b, next_digit, false));
+                    }
+                    // `\z` skips the white space that follows it (never before a space byte of the value)
+                    if bytes.get(i + 1).map(|n| !n.is_ascii_whitespace()).unwrap_or(true) {
+                        out.push_str(["", "\\z ", "\\z \n\t "][self.rng.below(3)]);
+                    }
+                }
+            }
+            i += 1;
+        }
+        out
+    }
+
+    fn string_literal(&mut self, bytes: &[u8]) -> String {
+        let family = if self.string_style >= STRING_STYLES { self.rng.below(STRING_STYLES) } else { self.string_style };
+        // long brackets when the content allows it
+        if family == 7 {
+            let printable = bytes.iter().all(|b| (0x20..0x7f).contains(b) || *b == b'\n');
+            if printable && bytes.first() != Some(&b'\n') {
+                let content = String::from_utf8(bytes.to_vec()).unwrap();
+                for level in 0..3 {
+                    let close = format!("]{}]", "=".repeat(level));
+                    let whole = format!("{}{}", content, close);
+                    if whole.find(&close) == Some(content.len()) {
+                        let text = format!("[{}[{}{}", "=".repeat(level), content, close);
+                        self.literals.push(("str", text.clone(), crate::model::hex(bytes)));
+                        return text;
+                    }
+                }
+            }
+        }
+        let quote = if family == 6 || (family >= STRING_STYLES && self.rng.chance(1, 2)) { b'\'' } else { b'"' };
+        let saved = self.string_style;
+        if family == 6 || family == 7 {
+            self.string_style = 0;
+        }
+        let body = self.string_body(bytes, quote);
+        self.string_style = saved;
+        let text = format!("{}{}{}", quote as char, body, quote as char);
+        self.literals.push(("str", text.clone(), crate::model::hex(bytes)));
+        text
+    }
+
+    fn group3(digits: &str) -> String {
+        let mut out = String::new();
+        for (i, c) in digits.chars().enumerate() {
+            if i > 0 && (digits.len() - i) % 3 == 0 {
+                out.push('_');
+            }
+            out.push(c);
+        }
+        out
+    }
+
+    fn number_literal(&mut self, bits: u64) -> Result<String, &'static str> {
+        let v = f64::from_bits(bits);
+        if !v.is_finite() || v.is_sign_negative() {
+            return Err("negative-or-non-finite-number-leaf");
+        }
+        let style = if self.number_style >= NUMBER_STYLES { self.rng.below(NUMBER_STYLES) } else { self.number_style };
+        let integer = v.fract() == 0.0 && v < 9007199254740992.0;
+        let int = v as u64;
+        let natural = format!("{:?}", v);
+        let text = match style {
+            1 => format!("{:e}", v),
+            2 if integer => format!("0x{:x}", int),
+            3 if integer => format!("0b{:b}", int),
+            4 if integer => Self::group3(&format!("{}", int)),
+            5 if natural.starts_with("0.") => natural[1..].to_owned(),
+            6 => format!("{:E}", v),
+            // (Luau has no hexadecimal floats: no `p` exponent)
+            7 if integer => format!("0X{:X}", int),
+            _ => natural,
+        };
+        self.literals.push(("num", text.clone(), format!("f{:016x}", bits)));
+        Ok(text)
+    }
+
+    fn is_leaf(s: &Sexp) -> bool {
+        match s {
+            Sexp::Atom(_) => true,
+            Sexp::List(l) => matches!(l.first().and_then(|h| h.atom()), Some("num" | "str" | "var")),
+        }
+    }
+
+    fn operand(&mut self, s: &Sexp) -> Result<String, &'static str> {
+        let text = self.render(s)?;
+        Ok(if Self::is_leaf(s) { text } else { format!("({})", text) })
+    }
+
+    /// something that may be followed by `.k`, `[k]`, `(args)`, `<<T>>`
+    fn prefix(&mut self, s: &Sexp) -> Result<String, &'static str> {
+        let text = self.render(s)?;
+        Ok(match s.head() {
+            Some("var" | "call" | "field" | "index" | "paren") => text,
+            _ => format!("({})", text),
+        })
+    }
+
+    fn name(atom: &Sexp) -> Result<String, &'static str> {
+        let n = atom.atom().and_then(astsexp::unhex_name).ok_or("name")?;
+        if n.is_empty() || !n.bytes().all(|b| b.is_ascii_alphanumeric() || b == b'_') || n.as_bytes()[0].is_ascii_digit() {
+            return Err("name-not-an-identifier");
+        }
+        Ok(n)
+    }
+
+    fn render(&mut self, s: &Sexp) -> Result<String, &'static str> {
+        let items = match s {
+            Sexp::Atom(a) => {
+                return match a.as_str() {
+                    "nil" | "true" | "false" => Ok(a.clone()),
+                    "vararg" => Ok("...".into()),
+                    _ => Err("atom"),
+                }
+            }
+            Sexp::List(items) => items,
+        };
+        let head = s.head().ok_or("headless")?;
+        match (head, &items[1..]) {
+            ("num", [bits]) => {
+                let bits = bits.atom().and_then(|a| a.strip_prefix('f')).and_then(|d| u64::from_str_radix(d, 16).ok()).ok_or("num")?;
+                self.number_literal(bits)
+            }
+            ("str", [bytes]) => {
+                let bytes = bytes.atom().and_then(crate::model::unhex).ok_or("str")?;
+                Ok(self.string_literal(&bytes))
+            }
+            ("var", [n]) => Self::name(n),
+            ("paren", [e]) => Ok(format!("({})", self.render(e)?)),
+            ("un", [op, e]) => {
+                let op = match op.atom() {
+                    Some("neg") => "-",
+                    Some("not") => "not ",
+                    Some("len") => "#",
+                    _ => return Err("unop"),
+                };
+                Ok(format!("{}{}", op, self.operand(e)?))
+            }
+            ("bin", [op, l, r]) => {
+                let op = match op.atom().ok_or("binop")? {
+                    "and" => "and", "or" => "or", "eq" => "==", "ne" => "~=", "lt" => "<", "le" => "<=", "gt" => ">",
+                    "ge" => ">=", "add" => "+", "sub" => "-", "mul" => "*", "div" => "/", "idiv" => "//", "mod" => "%",
+                    "pow" => "^", "concat" => "..",
+                    _ => return Err("binop"),
+                };
+                Ok(format!("{} {} {}", self.operand(l)?, op, self.operand(r)?))
+            }
+            ("call", [f, method, kind, args @ ..]) => {
+                if kind.atom() != Some("t") {
+                    return Err("call-with-string-or-table-argument-syntax");
+                }
+                let mut out = self.prefix(f)?;
+                if method.atom() != Some("-") {
+                    out.push(':');
+                    out.push_str(&Self::name(method)?);
+                }
+                let args = args.iter().map(|a| self.render(a)).collect::<Result<Vec<_>, _>>()?;
+                Ok(format!("{}({})", out, args.join(", ")))
+            }
+            ("field", [e, n]) => Ok(format!("{}.{}", self.prefix(e)?, Self::name(n)?)),
+            ("index", [e, k]) => Ok(format!("{}[ {} ]", self.prefix(e)?, self.render(k)?)),
+            ("fn", _) => {
+                if s.to_string() == self.empty_fn {
+                    Ok("function() end".into())
+                } else {
+                    Err("function-with-a-body")
+                }
+            }
+            ("table", entries) => {
+                let mut parts = Vec::new();
+                for entry in entries {
+                    let l = entry.list().ok_or("entry")?;
+                    parts.push(match (entry.head(), &l[1..]) {
+                        (Some("pos"), [v]) => self.render(v)?,
+                        (Some("named"), [k, v]) => format!("{} = {}", Self::name(k)?, self.render(v)?),
+                        (Some("keyed"), [k, v]) => format!("[ {} ] = {}", self.render(k)?, self.render(v)?),
+                        _ => return Err("entry"),
+                    });
+                }
+                Ok(format!("{{ {} }}", parts.join(", ")))
+            }
+            ("ifx", [c, t, elifs, e]) => {
+                let mut out = format!("if {} then {}", self.render(c)?, self.render(t)?);
+                for branch in elifs.list().ok_or("elifs")? {
+                    match branch.list().ok_or("elif")? {
+                        [c, t] => out.push_str(&format!(" elseif {} then {}", self.render(c)?, self.render(t)?)),
+                        _ => return Err("elif"),
+                    }
+                }
+                Ok(format!("{} else {}", out, self.render(e)?))
+            }
+            ("interp", segments) => {
+                let mut out = String::from("`");
+                // adjacent string segments are one run of text in source
+                let merged = match normal_form(&Sexp::List(
+                    std::iter::once(Sexp::Atom("interp".into())).chain(segments.iter().map(|g| match g.head() {
+                        // keep value segments opaque for the merge (their parentheses must stay)
+                        Some("v") => Sexp::List(vec![Sexp::Atom("v".into()), Sexp::Atom(format!("@{}", g.list().unwrap()[1]))]),
+                        _ => g.clone(),
+                    })).collect(),
+                )) {
+                    Sexp::List(l) => l,
+                    _ => return Err("interp"),
+                };
+                let restored: Vec<Sexp> = merged[1..]
+                    .iter()
+                    .map(|g| match (g.head(), g.list().and_then(|l| l.get(1)).and_then(|a| a.atom())) {
+                        (Some("v"), Some(a)) if a.starts_with('@') => {
+                            Sexp::List(vec![Sexp::Atom("v".into()), Sexp::parse(&a[1..]).unwrap_or(Sexp::Atom("nil".into()))])
+                        }
+                        _ => g.clone(),
+                    })
+                    .collect();
+                for segment in &restored {
+                    let l = segment.list().ok_or("segment")?;
+                    match (segment.head(), &l[1..]) {
+                        (Some("s"), [bytes]) => {
+                            let bytes = bytes.atom().and_then(crate::model::unhex).ok_or("seg")?;
+                            let saved = self.string_style;
+                            if self.string_style == 6 || self.string_style == 7 {
+                                self.string_style = 0;
+                            }
+                            let body = self.string_body(&bytes, b'`');
+                            self.string_style = saved;
+                            self.literals.push(("seg", body.clone(), crate::model::hex(&bytes)));
+                            out.push_str(&body);
+                        }
+                        (Some("v"), [e]) => {
+                            out.push('{');
+                            out.push_str(&self.operand(e)?);
+                            out.push('}');
+                        }
+                        _ => return Err("segment"),
+                    }
+                }
+                out.push('`');
+                Ok(out)
+            }
+            ("cast", [e, ty]) => {
+                if ty.to_string() != self.ty_wire {
+                    return Err("type-other-than-number");
+                }
+                Ok(format!("{} :: number", self.operand(e)?))
+            }
+            ("inst", [e, types @ ..]) => {
+                if types.len() != 1 || types[0].to_string() != self.ty_wire {
+                    return Err("type-other-than-number");
+                }
+                Ok(format!("{}<<number>>", self.prefix(e)?))
+            }
+            _ => Err("node"),
+        }
+    }
+}
+
+/// the tree without parentheses, with adjacent string segments of an interpolation merged and empty
+/// ones dropped (what a parser necessarily does): intended and parsed trees are compared in this form
+fn normal_form(s: &Sexp) -> Sexp {
+    match s {
+        Sexp::Atom(_) => s.clone(),
+        Sexp::List(items) => {
+            let head = items.first().and_then(|h| h.atom()).unwrap_or("");
+            if head == "paren" && items.len() == 2 {
+                return normal_form(&items[1]);
+            }
+            if matches!(head, "ty" | "fn" | "num" | "str" | "var") {
+                return s.clone();
+            }
+            let kids: Vec<Sexp> = items.iter().map(normal_form).collect();
+            if head == "interp" {
+                let mut out: Vec<Sexp> = vec![kids[0].clone()];
+                let mut pending: Vec<u8> = Vec::new();
+                let flush = |pending: &mut Vec<u8>, out: &mut Vec<Sexp>| {
+                    if !pending.is_empty() {
+                        out.push(Sexp::List(vec![Sexp::Atom("s".into()), Sexp::Atom(crate::model::hex(pending))]));
+                        pending.clear();
+                    }
+                };
+                for seg in &kids[1..] {
+                    if seg.head() == Some("s") {
+                        if let Some(bytes) = seg.list().and_then(|l| l.get(1)).and_then(|a| a.atom()).and_then(crate::model::unhex) {
+                            pending.extend(bytes);
+                            continue;
+                        }
+                    }
+                    flush(&mut pending, &mut out);
+                    out.push(seg.clone());
+                }
+                flush(&mut pending, &mut out);
+                return Sexp::List(out);
+            }
+            Sexp::List(kids)
+        }
+    }
+}
+
+/// The source-text leg of one case. `real_value` are the real Evaluator's answers on the by-value tree.
+fn source_leg(model: &mut Model, ctx: &Ctx, r: &mut Report, wire: &str, real_value: &Answers, label: &str, salt: usize) {
+    let tree = match Sexp::parse(wire) {
+        Ok(t) => t,
+        Err(_) => return,
+    };
+    let random = label == "random";
+    let mut renderer = Renderer {
+        rng: Rng::new(r.seed.wrapping_mul(0x9E37).wrapping_add(salt as u64).wrapping_add(77)),
+        string_style: if random { STRING_STYLES } else { salt % STRING_STYLES },
+        number_style: if random { NUMBER_STYLES } else { (salt / STRING_STYLES) % NUMBER_STYLES },
+        ty_wire: &ctx.ty_wire,
+        empty_fn: &ctx.empty_fn,
+        literals: Vec::new(),
+    };
+    let text = match renderer.render(&tree) {
+        Ok(t) => t,
+        Err(why) => {
+            r.hist("skipped", &format!("source-leg:not-renderable({})", why));
+            return;
+        }
+    };
+    let source = format!("return {}", text);
+    // (0) an independent reader confirms what the renderer wrote (C13's reference decoder, Lean)
+    for (kind, literal, intended) in &renderer.literals {
+        let key = format!("{}:{}", kind, literal);
+        if ctx.checked_literals.lock().unwrap().contains(&key) {
+            continue;
+        }
+        let answer = match *kind {
+            "str" => model.ask(&format!("c13.decode luau {}", crate::model::hex(literal.as_bytes()))),
+            "seg" => model.ask(&format!("c13.dseg {}", crate::model::hex(format!("{}`", literal).as_bytes()))),
+            _ => model.ask(&format!("c13.nval {}", crate::model::hex(literal.as_bytes()))),
+        };
+        let ok = match *kind {
+            "str" => answer == format!("some {}", intended),
+            "seg" => answer == format!("some {} {}", intended, crate::model::hex(b"`")),
+            _ => answer.trim_start_matches("some ").trim_start_matches("some:") == intended,
+        };
+        if !ok {
+            r.hist("skipped", "source-leg:renderer-vs-reference-reader");
+            r.violation(Violation {
+                kind: "correspondence".into(),
+                check: "harness:source-renderer".into(),
+                what: format!("the harness spelled a {} literal that the reference reader (C13 Spec) does not read back as the intended value: {}", kind, answer),
+                input: json!({"literal": literal, "intended": intended, "source": source}),
+                failing_input_found: false,
+            });
+            return;
+        }
+        let mut seen = ctx.checked_literals.lock().unwrap();
+        if seen.len() < 200_000 {
+            seen.insert(key);
+        }
+    }
+    r.hist("source_leg", "rendered");
+    judge_source(model, ctx, r, wire, &tree, real_value, &source);
+}
+
+/// `source` is Luau text denoting the value-level tree `wire`: parse it with darklua's parser and judge the
+/// real Evaluator on the parsed expression.
+fn judge_source(model: &mut Model, ctx: &Ctx, r: &mut Report, wire: &str, tree: &Sexp, real_value: &Answers, source: &str) {
+    // (1) darklua's own parser reads the text
+    let parsed = std::panic::catch_unwind(|| exec::parse(source));
+    let block = match parsed {
+        Ok(Ok(b)) => b,
+        Ok(Err(why)) => {
+            r.hist("skipped", "source-leg:parse-error");
+            r.violation(Violation {
+                kind: "correspondence".into(),
+                check: "source:parse-error".into(),
+                what: format!("darklua's parser refuses Luau source written by the harness: {}", why.chars().take(160).collect::<String>()),
+                input: json!({"source": source, "expr": wire}),
+                failing_input_found: false,
+            });
+            return;
+        }
+        Err(_) => {
+            r.hist("skipped", "source-leg:parser-panic");
+            r.violation(Violation {
+                kind: "correspondence".into(),
+                check: "source:parser-panic".into(),
+                what: "darklua's parser panics on Luau source written by the harness".into(),
+                input: json!({"source": source, "expr": wire}),
+                failing_input_found: false,
+            });
+            return;
+        }
+    };
+    let parsed_expr = match block.get_last_statement() {
+        Some(LastStatement::Return(ret)) => match ret.iter_expressions().next() {
+            Some(e) => e.clone(),
+            None => return,
+        },
+        _ => return,
+    };
+    let parsed_wire = astsexp::expr_to_sexp(&parsed_expr);
+    let same_tree = Sexp::parse(&parsed_wire).map(|p| normal_form(&p) == normal_form(tree)).unwrap_or(false);
+    let real_source = real_answers(&parsed_expr);
+    let same_answers = real_source.as_ref() == Some(real_value);
+    if same_tree && same_answers {
+        r.hist("source_leg", "agrees");
+        return;
+    }
+    r.hist("source_leg", if same_tree { "answers-differ" } else { "tree-differs" });
+    // the evaluator is now judged on the SOURCE expression: its answers against execution of the
+    // expression the text denotes (the intended value-level tree, on the reference semantics)
+    let failure = match &real_source {
+        Some(answers) => oracle(model, ctx, answers, wire, true, 0, r).map(|f| (answers.text(), f)),
+        None => None,
+    };
+    match failure {
+        Some((answers, (env, why, outcome))) => r.violation(Violation {
+            kind: "oracle".into(),
+            check: "source:evaluator-vs-execution".into(),
+            what: format!("on the expression PARSED FROM SOURCE the real evaluator disagrees with execution: {} (environment {})", why, env),
+            input: json!({"source": source, "denotes": wire, "parsed_tree": parsed_wire, "real_on_source": answers, "real_on_value_tree": real_value.text(), "outcome": outcome}),
+            failing_input_found: true,
+        }),
+        None => r.violation(Violation {
+            kind: "correspondence".into(),
+            check: "source:value-tree".into(),
+            what: if real_source.is_none() {
+                "the real evaluator panics on the expression parsed from source".to_owned()
+            } else if same_tree {
+                "the real evaluator answers differently on the parsed source than on the same tree built by value".to_owned()
+            } else {
+                "darklua's parser reads the source as another tree than the one it denotes (literal decoding)".to_owned()
+            },
+            input: json!({"source": source, "denotes": wire, "parsed_tree": parsed_wire, "real_on_source": real_source.map(|a| a.text()), "real_on_value_tree": real_value.text()}),
+            failing_input_found: false,
+        }),
+    }
+}
+
 /// one case: correspondence + oracle. Returns true when the case was evaluated.
 fn check_case(model: &mut Model, ctx: &Ctx, r: &mut Report, wire: &str, source: &str, all_envs: bool, salt: usize) {
     let expr = match astsexp::sexp_to_expr(wire) {
@@ -733,6 +1360,7 @@ fn check_case(model: &mut Model, ctx: &Ctx, r: &mut Report, wire: &str, source: 
     }
 
     let failure = oracle(model, ctx, &real, &wire, all_envs || !agrees, salt, r);
+    source_leg(model, ctx, r, &wire, &real, source, salt);
 
     if !agrees {
         // search: this input, then its sub-expressions, for an input on which the REAL evaluator breaks the property
@@ -996,7 +1624,12 @@ fn replay_known_findings(model: &mut Model, ctx: &Ctx, r: &mut Report) {
 
 pub fn run(report: &mut Report, replay: Option<&str>) {
     let alpha = alphabet();
-    let ctx = Ctx { envs: environments() };
+    let ctx = Ctx {
+        envs: environments(),
+        ty_wire: alpha.ty.clone(),
+        empty_fn: alpha.empty_fn.clone(),
+        checked_literals: std::sync::Mutex::new(std::collections::HashSet::new()),
+    };
     report.rule = "expressions as wire trees: EXHAUSTIVE depth ≤ 1 (3 unary, 16 binary, parenthesis, cast, instantiation, interpolation, \
         table constructor, if-expression with and without elseif) over 57 literals (nil, booleans, ±0, tiny/huge/non-terminating numbers, \
         ±inf/NaN as division trees, 32 strings incl. numeric-looking, spaced, signed, hex, underscore, non-UTF-8, Unicode space; table \
@@ -1011,7 +1644,14 @@ pub fn run(report: &mut Report, replay: Option<&str>) {
         let text = std::fs::read_to_string(path).expect("replay file");
         let v: serde_json::Value = serde_json::from_str(&text).expect("replay json");
         let mut model = Model::spawn();
-        for key in ["expr", "within", "disagreeing_expr"] {
+        if let (Some(src), Some(denotes)) = (v["input"]["source"].as_str(), v["input"]["denotes"].as_str()) {
+            if let (Ok(tree), Ok(expr)) = (Sexp::parse(denotes), astsexp::sexp_to_expr(denotes)) {
+                if let Some(real) = real_answers(&expr) {
+                    judge_source(&mut model, &ctx, report, denotes, &tree, &real, src);
+                }
+            }
+        }
+        for key in ["expr", "within", "disagreeing_expr", "denotes"] {
             if let Some(w) = v["input"][key].as_str().or_else(|| v[key].as_str()) {
                 check_case(&mut model, &ctx, report, w, "replay", true, 0);
             }
@@ -1060,6 +1700,9 @@ pub fn run(report: &mut Report, replay: Option<&str>) {
     report.count("depth2_total", d2_total as u64);
     report.count("random_cases", random_total as u64);
 
+    let directed = directed_source_cases();
+    report.count("directed_source_cases", directed.len() as u64);
+    let directed = &directed;
     let d1 = &d1;
     let rd1 = &rd1;
     let alpha = &alpha;
@@ -1067,6 +1710,11 @@ pub fn run(report: &mut Report, replay: Option<&str>) {
     report.parallel(threads, |tid, r| {
         let mut model = Model::spawn();
         let rule = exec::rule_from_json("'compute_expression'").expect("compute_expression rule");
+        for (i, (w, salt)) in directed.iter().enumerate() {
+            if i % threads == tid {
+                check_case(&mut model, ctx, r, w, "directed-source", true, *salt);
+            }
+        }
         for (i, w) in d1.iter().enumerate() {
             if i % threads == tid {
                 check_case(&mut model, ctx, r, w, "depth1", true, i);
